@@ -7,7 +7,7 @@ every field value symbolic (bytes first):
                           original, with unit id (and tid/pid on TCP) preserved
 CRC/LRC appear as contracts inside these harnesses; lemmas K1/K2 tie the real functions to the standards.
 """
-from engine.hlib import assume, same, explain, known, crc16, in_witness
+from engine.hlib import lohi, assume, same, explain, known, crc16, in_witness
 from engine.obl import Obl
 from spec import pdu, adu
 from harness.c01 import fields_equal, _decoder, needs_bits
@@ -39,7 +39,7 @@ def _binary_carve(hdr, pdu_bytes):
     in_data = (hdr[4] == 0x7B) | (hdr[4] == 0x7D)
     for i in range(len(pdu_bytes)):
         in_data = in_data | (pdu_bytes[i] == 0x7B) | (pdu_bytes[i] == 0x7D)
-    in_crc = (c % 256 == 0x7B) | (c % 256 == 0x7D) | (c // 256 == 0x7B) | (c // 256 == 0x7D)
+    in_crc = (lohi(c)[0] == 0x7B) | (lohi(c)[0] == 0x7D) | (lohi(c)[1] == 0x7B) | (lohi(c)[1] == 0x7D)
     if in_witness("KF-binary-delimiters"):
         # the witness must not depend on the (uninterpreted) checksum value: delimiter in unit or payload
         assume(in_data)
